@@ -91,6 +91,8 @@ type certDesc struct {
 	ExclDir     []any          `json:"excluded_dirname,omitempty"`
 	Extra       []extDesc      `json:"extra_extensions,omitempty"`
 	OptionalSet int            `json:"optional_fields_set"`
+	Aliasing    string         `json:"aliasing,omitempty"`
+	Reused      bool           `json:"template_reused,omitempty"`
 }
 
 // ---- generators ----------------------------------------------------------------------------
@@ -256,7 +258,8 @@ func wellFormedOverride(field string) []byte {
 }
 
 type c04Case struct {
-	Tpl        *x509.Certificate
+	Tpl        *x509.Certificate // what is handed to CreateCertificate (may alias, may be reused)
+	Want       *x509.Certificate // an identical template built from the same random stream, sharing no memory with Tpl: what was supplied
 	Desc       certDesc
 	SubjectKey *sigKey
 	SignerKey  *sigKey
@@ -535,6 +538,95 @@ func genCert(r *rand.Rand) *c04Case {
 	return cs
 }
 
+// aliasTemplate re-homes slices of the library's copy of the template so that they share memory or have spare capacity
+// (values unchanged): IP ranges of the name constraints and SAN IPs carved out of one array each, SKID and AKID out of one
+// array, list fields with spare capacity; optionally the template is used twice.
+func aliasTemplate(r *rand.Rand, cs *c04Case) {
+	t := cs.Tpl
+	var what []string
+	var nets []*net.IPNet
+	for i := range t.PermittedIPAddresses {
+		nets = append(nets, &t.PermittedIPAddresses[i].Data)
+	}
+	for i := range t.ExcludedIPAddresses {
+		nets = append(nets, &t.ExcludedIPAddresses[i].Data)
+	}
+	if len(nets) > 0 {
+		total := 0
+		for _, n := range nets {
+			total += len(n.IP)
+		}
+		buf := make([]byte, 0, total+40)
+		for _, n := range nets {
+			o := len(buf)
+			buf = append(buf, n.IP...)
+			n.IP = buf[o:len(buf):cap(buf)] // capacity reaches over the following addresses
+		}
+		what = append(what, "name-constraint IPs carved from one array")
+	}
+	if len(t.IPAddresses) > 0 {
+		buf := make([]byte, 0, 16*len(t.IPAddresses)+8)
+		for i, ip := range t.IPAddresses {
+			o := len(buf)
+			buf = append(buf, ip...)
+			t.IPAddresses[i] = buf[o:len(buf):cap(buf)]
+		}
+		what = append(what, "SAN IPs carved from one array")
+	}
+	if len(t.SubjectKeyId) > 0 && len(t.AuthorityKeyId) > 0 {
+		buf := append(append(make([]byte, 0, 64), t.SubjectKeyId...), t.AuthorityKeyId...)
+		t.SubjectKeyId, t.AuthorityKeyId = buf[:len(t.SubjectKeyId)], buf[len(t.SubjectKeyId):]
+		what = append(what, "SKID and AKID carved from one array")
+	}
+	if len(t.ExtraExtensions) > 0 {
+		t.ExtraExtensions = append(make([]pkix.Extension, 0, len(t.ExtraExtensions)+3), t.ExtraExtensions...)
+	}
+	if len(t.UnknownExtKeyUsage) > 0 {
+		t.UnknownExtKeyUsage = append(make([]asn1.ObjectIdentifier, 0, len(t.UnknownExtKeyUsage)+3), t.UnknownExtKeyUsage...)
+	}
+	if len(t.ExtKeyUsage) > 0 {
+		t.ExtKeyUsage = append(make([]x509.ExtKeyUsage, 0, len(t.ExtKeyUsage)+3), t.ExtKeyUsage...)
+	}
+	if len(t.DNSNames) > 0 {
+		t.DNSNames = append(make([]string, 0, len(t.DNSNames)+3), t.DNSNames...)
+	}
+	what = append(what, "list fields with spare capacity")
+	cs.Desc.Reused = cs.Mode != "self-signed" && r.IntN(2) == 0
+	cs.Desc.Aliasing = strings.Join(what, "; ")
+}
+
+// templateInputsEqual compares the memory-carrying fields of the template given to the library with the pristine copy.
+func templateInputsEqual(a, b *x509.Certificate) bool {
+	nets := func(s []x509.GeneralSubtreeIP) string {
+		var o []string
+		for _, v := range s {
+			o = append(o, fmt.Sprintf("%x/%x", []byte(v.Data.IP), []byte(v.Data.Mask)))
+		}
+		return strings.Join(o, ",")
+	}
+	if nets(a.PermittedIPAddresses) != nets(b.PermittedIPAddresses) || nets(a.ExcludedIPAddresses) != nets(b.ExcludedIPAddresses) {
+		return false
+	}
+	if len(a.IPAddresses) != len(b.IPAddresses) {
+		return false
+	}
+	for i := range a.IPAddresses {
+		if !bytes.Equal(a.IPAddresses[i], b.IPAddresses[i]) {
+			return false
+		}
+	}
+	if !bytes.Equal(a.SubjectKeyId, b.SubjectKeyId) || !bytes.Equal(a.AuthorityKeyId, b.AuthorityKeyId) || !sameStrings(a.DNSNames, b.DNSNames) ||
+		!sameOIDs(a.UnknownExtKeyUsage, b.UnknownExtKeyUsage) || len(a.ExtraExtensions) != len(b.ExtraExtensions) {
+		return false
+	}
+	for i := range a.ExtraExtensions {
+		if !a.ExtraExtensions[i].Id.Equal(b.ExtraExtensions[i].Id) || !bytes.Equal(a.ExtraExtensions[i].Value, b.ExtraExtensions[i].Value) {
+			return false
+		}
+	}
+	return a.SerialNumber.Cmp(b.SerialNumber) == 0 && a.KeyUsage == b.KeyUsage
+}
+
 // ---- oracle --------------------------------------------------------------------------------
 
 var reNumbers = regexp.MustCompile(`[0-9]+`)
@@ -630,7 +722,7 @@ func extCount(exts []pkix.Extension, oid asn1.ObjectIdentifier) int {
 
 // checkCert compares the parsed certificate with the template. It returns "field: detail" strings.
 func checkCert(cs *c04Case, parentSubject *pkix.Name, parentRawSubject []byte, got *x509.Certificate) []string {
-	t := cs.Tpl
+	t := cs.Want
 	var bad []string
 	add := func(field, format string, a ...any) { bad = append(bad, field+": "+fmt.Sprintf(format, a...)) }
 
@@ -914,7 +1006,14 @@ func runC04(c *core.Ctx) {
 	n := c.PerShard(c.Pick(2400, 60000))
 	r := c.SubRng("templates")
 	for i := 0; i < n; i++ {
-		cs := genCert(r)
+		// the template is generated twice from the same stream: one copy goes to the library, the other is the record of
+		// what was supplied (so that a library writing into its input cannot move the oracle)
+		lbl := fmt.Sprintf("tpl-%d", i)
+		cs := genCert(c.SubRng(lbl))
+		cs.Want = genCert(c.SubRng(lbl)).Tpl
+		if r.IntN(4) == 0 {
+			aliasTemplate(r, cs)
+		}
 		runCertCase(c, r, fmt.Sprintf("c04-%d-%d", c.Shard, i), cs)
 	}
 	if c.Shard == 0 {
@@ -956,6 +1055,12 @@ func runCertCase(c *core.Ctx, r *rand.Rand, id string, cs *c04Case) {
 			c.Count("akid_doc_comment_expects_parent_skid", 1)
 		}
 	}
+	if cs.Desc.Reused {
+		// the same template used twice: the second certificate is the one that is checked
+		core.Guard(func() {
+			_, _ = x509.CreateCertificate(detReader(r), cs.Tpl, parentArg, cs.SubjectKey.Signer().Public(), signer)
+		})
+	}
 	var der []byte
 	var err error
 	if pi := core.Guard(func() {
@@ -969,6 +1074,12 @@ func runCertCase(c *core.Ctx, r *rand.Rand, id string, cs *c04Case) {
 		return
 	}
 	input["der"] = core.FullHex(der)
+	// observation only: did the call change the template it was given?
+	if templateInputsEqual(cs.Tpl, cs.Want) {
+		c.Count("create_left_its_template_unchanged", 1)
+	} else {
+		c.Count("create_changed_its_template", 1)
+	}
 	var got *x509.Certificate
 	if pi := core.Guard(func() { got, err = x509.ParseCertificate(der) }); pi != nil {
 		c.Violation("cert-roundtrip:parse:"+pi.Key, pi.Value+"\n"+pi.Stack, id, input)
